@@ -68,7 +68,31 @@ def _c17(tier, seed):
                  validate_runs=["H_C17_table(4,4)", "H_C17_table(5,4)", "H_C17_arbitrary(12)", "H_C17_catalogue()"],
                  covers={"H_C17_table": ["numeric", "non-numeric"], "H_C17_arbitrary": ["no-row"]})]
 
+def _c20(tier, seed):
+    q = tier == "quick"
+    sl = 2 if q else 3
+    runs = []
+    for sch in (0, 1, 2):
+        for k in (0, 1, 2, 3):
+            runs.append("H_C20_paths(%d,%d,%d,%d)" % (sch, (sch + k) % 5, k, sl))
+        runs.append("H_C20_joinchat(%d,%d)" % (sch, sl))
+    for portSel in range(4):
+        for pathSel in range(3):
+            runs.append("H_C20_hosts(%d,%d,%d,%d)" % (portSel % 2, 8 if q else 12, portSel, pathSel))
+    for k in (0, 1, 2):
+        runs.append("H_C20_schemeless(%d,%d)" % (5 if q else 8, k))
+    return [dict(name="links", dir="/repo/telegram/deeplinks", pkg=".", harness=["harness/deeplinks/c20.go"], runs=runs, solver="z3",
+                 validate_runs=["H_C20_paths(1,2,1,2)", "H_C20_paths(0,2,2,2)", "H_C20_joinchat(1,2)", "H_C20_hosts(0,8,2,0)", "H_C20_schemeless(5,1)"],
+                 covers={"H_C20_joinchat": ["invite"]})]
+
 PROPS = {
+    "C20": dict(
+        jobs=_c20,
+        bounds={"quick": "schemes {none, http, https}; the 5 reserved hosts and every host text of length 0..8 over [A-Za-z0-9.-] (look-alikes), ports {none, ':', ':443', ':8080'}; paths of 0..3 segments, each 0..2 bytes over [A-Za-z0-9._~-]; /joinchat/<token> with token 0..2 and arbitrary 8-byte first segments; scheme-less texts incl. the bare host",
+                "thorough": "host texts 0..12, segments 0..3, scheme-less hosts 0..8"},
+        outside="url.Parse itself (the engine runs resolveHttpLink on the URL value Parse yields; counterexamples are re-validated natively through the public Resolve on the text); other schemes (tg://, ftp://: the scheme switch sits behind url.Parse); percent-escapes, query/fragment, non-ASCII",
+        assumptions=["for the stated alphabets url.Parse passes host and path through unchanged (checked natively on every replayed counterexample and on the differential validation vectors)"],
+    ),
     "C17": dict(
         jobs=_c17,
         bounds={"quick": "each of the 15 table rows with every parameter string of length 0..4 (all bytes symbolic: digits, signs, non-digits, '%'); every error text of length 0..12 with every 32-bit code; all catalogue entries (ground)",
